@@ -1,5 +1,6 @@
 import XlModel.Grid
 import XlModel.GridPayload
+import XlModel.GridLinks
 import XlModel.Ref
 import XlModel.Drv.Util
 /-!
@@ -120,6 +121,7 @@ def parseSetter (w : String) : Option Setter :=
   | [] => none
 
 structure St where
+  links : Links := []
   impl : Sheet := {}
   spec : Spec.Sheet := Spec.init 1
 
@@ -132,7 +134,7 @@ def resTag (sst : List Tok) : Res → String
 def apply (st : St) (op : Op) : St × Res :=
   let (i, r) := step st.impl op
   let (sp, _) := Spec.step st.spec op
-  ({ impl := i, spec := sp }, r)
+  ({ st with impl := i, spec := sp }, r)
 
 def out (st : St) (r : Res) : St × String := (st, resTag st.impl.sst r ++ " | " ++ dump st.impl)
 
@@ -173,7 +175,7 @@ def obsLine (st : St) (c1 r1 c2 r2 : Nat) : String :=
 def stepLine (st : St) (w : List String) : St × String :=
   match w with
   | ["new", n] => match n.toNat? with
-    | some n => let st' : St := { impl := { nStyles := n }, spec := Spec.init n }; out st' .ok
+    | some n => let st' : St := { links := [], impl := { nStyles := n }, spec := Spec.init n }; out st' .ok
     | none => (st, "bad-op")
   | ["val", k, h, arg] =>
     match parseValue k arg, decode h with
@@ -198,8 +200,8 @@ def stepLine (st : St) (w : List String) : St × String :=
         let a := anchor st1.impl.merges c r
         let (c, r) := a
         let (st2, _) := apply st1 (.getStyle c r)
-        let st3 : St := { impl := { st2.impl with nStyles := max st2.impl.nStyles (id + 1) },
-                          spec := { st2.spec with nStyles := max st2.spec.nStyles (id + 1) } }
+        let st3 : St := { st2 with impl := { st2.impl with nStyles := max st2.impl.nStyles (id + 1) },
+                                   spec := { st2.spec with nStyles := max st2.spec.nStyles (id + 1) } }
         let (st4, res4) := apply st3 (.style c r c r id)
         out st4 res4
       | none => out st1 res
@@ -218,10 +220,28 @@ def stepLine (st : St) (w : List String) : St × String :=
       let (st', res) := apply st (.style c1 r1 c2 r2 idn); out st' res
     | some _, some _, some _ => out st .err
     | _, _, _ => (st, "bad-op")
-  | ["hl", h, _] =>
+  | ["hl", h, l] =>
     match decode h with
-    | some (.ok _, _) => out st .ok
+    | some (.ok (c, r), _) =>
+      let (ls, res) := setLink st.impl.merges st.links c r l
+      out { st with links := ls } res
     | some (.error _, _) => out st .err
+    | none => (st, "bad-op")
+  | ["hlrm", h] =>
+    match decode h with
+    | some (.ok (c, r), _) =>
+      let (ls, res) := unsetLink st.impl.merges st.links c r
+      out { st with links := ls } res
+    | some (.error _, _) => out st .err
+    | none => (st, "bad-op")
+  | ["hlget", h] =>
+    match decode h with
+    | some (.ok (c, r), _) =>
+      match getLink st.impl.merges st.links c r with
+      | some (some l) => (st, "link " ++ l)
+      | some none => (st, "nolink")
+      | none => (st, "E_REF")
+    | some (.error _, _) => (st, "E_REF")
     | none => (st, "bad-op")
   | ["gsty", h] =>
     match decode h with
